@@ -118,7 +118,7 @@ class Machine:
         if models:
             self.models.update(models)
         self.lenient = False      # nested local calls that cannot be evaluated yield Opaque instead of failing the whole evaluation
-        self.pred_models = [(lambda n: n.endswith("::branch") and "Try" in n, _try_branch), (lambda n: n.endswith("::index") and ("Index" in n or "slice::index" in n), _index),
+        self.pred_models = [(lambda n: n.endswith("::from") and ("convert" in n or "From<" in n), _from_lossless), (lambda n: n.endswith("::branch") and "Try" in n, _try_branch), (lambda n: n.endswith("::index") and ("Index" in n or "slice::index" in n), _index),
                             (lambda n: n in ("std::iter::range::next",) or (n.endswith("::next") and "ops::Range<" in n), _range_next),
                             (lambda n: n.endswith("::from_residual"), _from_residual)]     # [(predicate on the normalised callee path, model)]
         self.max_steps, self.max_depth = max_steps, max_depth
@@ -731,6 +731,13 @@ def _to_vec(m, a, d):
 
 def _ident(m, a, d):
     return a[0]
+
+
+def _from_lossless(m, a, d):
+    # `u64::from(x)` and the other std `From` conversions between integers / bool are value-preserving
+    if len(a) == 1 and isinstance(a[0], (int, Adt, Bytes)):
+        return a[0]
+    return Opaque("from")
 
 
 def _eq(m, a, d):
